@@ -1,6 +1,7 @@
 import Rare.Base.Proto
 import Rare.Model.C15
 import Rare.Model.C15Trunc
+import Rare.Model.C15Wiring
 import Rare.Model.C15Tail
 import Rare.Model.C15Trace
 /-!
@@ -445,7 +446,31 @@ def ttrace (blob : String) (damaged : Bool) : String :=
       let st := " ".intercalate (stuck.map fun p => s!"{p}:{showEv (TraceOrder.evAt tr p)}")
       s!"rejected after={deepest}/{tr.size} exhaustive={exhausted} frontier={st}"
 
+/-! ### the wiring (`Rare.C15.Wiring`): `new <reopen> <poll> <exists>`, `cli <flag>+<flag>+…` -/
+
+def bit (b : Bool) : String := if b then "1" else "0"
+
+def newAnswer (reopen poll exists_ : Bool) : String :=
+  if Rare.C15.Wiring.newFails exists_ reopen then "ok err" else
+  match Rare.C15.Wiring.newReader reopen poll with
+  | (.notify, r) => s!"ok kind=notify reopen={bit r}"
+  | (.poll, r) => s!"ok kind=poll reopen={bit r} attempts={Rare.C15.Wiring.defaultAttempts} delayms={Rare.C15.Wiring.defaultDelayMs}"
+
+def cliAnswer (spec : String) : String :=
+  let toks := if spec == "-" then [] else spec.splitOn "+"
+  match Rare.C15.Wiring.parseFlags toks with
+  | none => "bad-args"
+  | some fl =>
+    match Rare.C15.Wiring.plan fl with
+    | .usage => "ok usage"
+    | .files => "ok files"
+    | .follow w =>
+      let k := match w.kind with | .notify => "notify" | .poll => "poll"
+      s!"ok follow kind={k} reopen={bit w.reopen} tail={bit w.tail}"
+
 def handle : List String → String
+  | ["new", r, p, e] => newAnswer (r == "1") (p == "1") (e == "1")
+  | ["cli", spec] => cliAnswer spec
   | ["tailb", blob] => tailb blob
   | ["ttrace", blob] => ttrace blob false
   | ["tmut", blob] => ttrace blob true
